@@ -8,7 +8,11 @@ import time
 
 VERIF = os.path.dirname(os.path.dirname(os.path.abspath(__file__)))
 REPO = os.environ.get('VERIF_REPO', '/repo')
-BUILD = os.path.join(VERIF, '.build')
+BUILD = os.environ.get('VERIF_BUILD') or os.path.join(VERIF, '.build')
+# development aid: VERIF_REPO=<worktree> VERIF_BUILD=<scratch dir> runs the same checks against another checkout without
+# touching /repo or /verif/.build (crates with a path dependency on /repo are copied with the path rewritten)
+ALT = os.path.abspath(REPO) != '/repo'
+OUT = BUILD if ALT else VERIF
 NIGHTLY = 'nightly'
 GUARD = 'gothenburgbitfactory_taskchampion_verif'
 
@@ -75,9 +79,27 @@ def mir_dump(log=print):
         return out, time.time() - t0, True
 
 
+def crate_dir(name):
+    """the harness crate to build: /verif/<name>, or (other checkout) a copy with the path dependency rewritten"""
+    src = os.path.join(VERIF, name)
+    if not ALT:
+        return src
+    import shutil
+    dst = os.path.join(BUILD, name + '-src')
+    os.makedirs(BUILD, exist_ok=True)
+    with Lock('copy-' + name):
+        if os.path.exists(dst):
+            shutil.rmtree(dst)
+        shutil.copytree(src, dst, ignore=shutil.ignore_patterns('target', 'Cargo.lock'))
+        p = os.path.join(dst, 'Cargo.toml')
+        s = open(p).read().replace('path = "/repo"', 'path = "%s"' % os.path.abspath(REPO))
+        open(p, 'w').write(s)
+    return dst
+
+
 def replay_binary(log=print):
     """build /verif/replay against /repo's working tree with hooks enabled; returns path to the binary"""
-    crate = os.path.join(VERIF, 'replay')
+    crate = crate_dir('replay')
     with Lock('replay'):
         env = _env()
         env['CARGO_TARGET_DIR'] = os.path.join(BUILD, 'replay-target')
